@@ -151,4 +151,13 @@ def handle (line : String) : String :=
       | _, _, _ => "bad-request point/wrt/roots"
     | _, _ => "bad-request wrt/point missing"
 
-def main : IO Unit := NutilsVerif.Proto.serve handle
+/-- one answer line per request line, flushed immediately (the harness enforces a per-request time limit) -/
+partial def loop (hin hout : IO.FS.Stream) : IO Unit := do
+  let line ← hin.getLine
+  if line.isEmpty then return ()
+  let l := if line.endsWith "\n" then (line.dropEnd 1).toString else line
+  hout.putStrLn (handle l)
+  hout.flush
+  loop hin hout
+
+def main : IO Unit := do loop (← IO.getStdin) (← IO.getStdout)
